@@ -63,11 +63,13 @@ pub fn check(case: &Case) -> CaseResult {
     for (i, c) in it.enumerate() {
         match case.how.get(i).copied().unwrap_or(0) % 3 {
             0 => {
-                list.extend(pending.drain(..));
+                // an iterator whose size hint is inexact (lower bound 0)
+                list.extend(pending.drain(..).filter(|_| true));
                 list.add(c);
             }
             1 => {
-                list.extend(pending.drain(..));
+                // an iterator that under-reports (flat_map) its length
+                list.extend(pending.drain(..).flat_map(Some));
                 list = list.command(c);
             }
             _ => pending.push(c),
